@@ -22,7 +22,7 @@ class Sim:
         self.universe = list(universe or names)   # truth tables range over these names
         self.n = len(self.universe)
         self.rnd = rnd or random.Random(0)
-        lv = {nm: k for k, nm in enumerate(order or names)}
+        lv = shuffled_dict({nm: k for k, nm in enumerate(order or names)}, self.rnd)
         if mode == 'autoref':
             self.m = A.BDD(lv)
             self.b = self.m._bdd
@@ -269,7 +269,7 @@ class Sim:
     def op_order(self):
         p = list(self.b.vars)
         self.rnd.shuffle(p)
-        o = {nm: k for k, nm in enumerate(p)}
+        o = shuffled_dict({nm: k for k, nm in enumerate(p)}, self.rnd)
         self.log.append(('reorder', o))
         if self.mode == 'autoref':
             self.m.reorder(o)
@@ -320,6 +320,8 @@ class Sim:
             if not unused:
                 return
             sel = self.rnd.sample(unused, self.rnd.randint(1, len(unused)))
+            if self.rnd.random() < .3:
+                sel.append(sel[0])       # the same name twice
             self.log.append(('undeclare_vars', sel))
             rm = b.undeclare_vars(*sel)
             want_rm = set(sel)
@@ -342,7 +344,7 @@ class Sim:
         self.rnd.shuffle(o)
         self.log.append(('copy to second manager and back', self.node(f), o))
         if self.mode == 'autoref':
-            other = self.A.BDD({nm: k for k, nm in enumerate(o)})
+            other = self.A.BDD(shuffled_dict({nm: k for k, nm in enumerate(o)}, self.rnd))
             other.configure(reordering=True)
             other._bdd._last_len = self.rnd.choice([1, 2, 4])
             g = self.m.copy(f, other) if self.rnd.random() < .5 else self.A.copy_bdd(f, other)
@@ -353,7 +355,7 @@ class Sim:
             del g
             self.keep(back, t)
         else:
-            other = self.B.BDD({nm: k for k, nm in enumerate(o)})
+            other = self.B.BDD(shuffled_dict({nm: k for k, nm in enumerate(o)}, self.rnd))
             other.configure(reordering=True)
             other._last_len = self.rnd.choice([1, 2, 4])
             g = self.b.copy(f, other)
